@@ -303,3 +303,66 @@ func stripMarkers(p []string) []string {
 	}
 	return out
 }
+
+// groupHistory: one schema instance used for a whole sequence of calls (including failing and
+// default-filling ones); every call must return what a FRESH instance returns for the same
+// (operation, argument), must leave its argument untouched, and the instance's self-description
+// must not change (C12).
+func groupHistory(s *sink, g *hx.Gen) {
+	t := g.Schema(0, nil)
+	used := t.Build()
+	describe := func() string {
+		r := hx.Guard(func() hx.Result {
+			if sc, ok := used.(interface{ SelfSerialize() (any, error) }); ok {
+				d, err := sc.SelfSerialize()
+				if err != nil {
+					return hx.Result{R: "err"}
+				}
+				return hx.Result{R: "ok", V: hx.Enc(d)}
+			}
+			return hx.Result{R: "ok", V: hx.Nil()}
+		})
+		if r.R != "ok" {
+			return r.R
+		}
+		return hx.Canon(r.V)
+	}
+	before := describe()
+	n := 5 + g.R.Intn(20)
+	var natives []any
+	for i := 0; i < n; i++ {
+		op := []string{"U", "U", "U", "C", "V", "S"}[g.R.Intn(6)]
+		var v *hx.Val
+		var arg any
+		if (op == "V" || op == "S") && len(natives) > 0 && g.R.Intn(3) > 0 {
+			arg = natives[g.R.Intn(len(natives))]
+			v = hx.Enc(arg)
+		} else {
+			if g.R.Intn(4) == 0 {
+				v = g.RandomVal(0)
+			} else {
+				v = g.Value(t, hx.Env{}, 0)
+			}
+			arg = v.ToGo()
+		}
+		snap := hx.Canon(hx.Enc(arg))
+		var out any
+		resUsed := hx.Guard(func() hx.Result { r, o := hx.RunOpRaw(op, used, arg); out = o; return r })
+		if after := hx.Canon(hx.Enc(arg)); after != snap {
+			s.finding(Finding{Prop: "C12", What: op + " modified its argument", Schema: t, Input: v, Detail: []string{snap, after}})
+		}
+		// the same call on a fresh instance, recorded as a case for the model as well
+		resFresh, id, _ := s.emit(op, t, v, arg, true, "class", "history")
+		if resUsed.R != resFresh.R || (resUsed.R == "ok" && hx.Canon(resUsed.V) != hx.Canon(resFresh.V)) {
+			s.finding(Finding{Prop: "C12", What: "result depends on the calls made before on the same schema instance",
+				Cases: []int{id}, Schema: t, Input: v, Detail: []string{"used instance: " + resUsed.JSON(), "fresh instance: " + resFresh.JSON()}})
+		}
+		if op == "U" && resUsed.R == "ok" {
+			natives = append(natives, out)
+		}
+	}
+	if after := describe(); after != before {
+		s.finding(Finding{Prop: "C12", What: "the schema's self-description changed after a history of calls", Schema: t,
+			Detail: []string{before, after}})
+	}
+}
